@@ -133,12 +133,21 @@ def main(tier):
     for name, pool, factor, openl in (("pool1", "MCPool1", 1, 1), ("pool2", "MCPool2", 1, 1), ("pool2f2", "MCPool2", 2, 2)) + ((("pool1f2", "MCPool1", 2, 1),) if thorough else ()):
         cfg = os.path.join(lib.BUILD, f"MC_Rehash_{name}.cfg")
         with open(cfg, "w") as f:
-            f.write(f'CONSTANTS\n  Devices = {{"d1", "d2"}}\n  NRuns <- MCNRuns\n  RunSize = 2\n  Pool <- {pool}\n  Factor = {factor}\n  OpenLimit = {openl}\n  FailSet <- MCFail\n'
+            f.write(f'CONSTANTS\n  Devices = {{"d1", "d2"}}\n  NRuns <- MCNRuns\n  RunSize = 2\n  Pool <- {pool}\n  Factor = {factor}\n  OpenLimit = {openl}\n  FailSet <- MCFail\n  PermitsPerTask = 1\n'
                     "SPECIFICATION Spec\nINVARIANTS Bounded OpenBounded Confluent NoDeadlock\nPROPERTY Termination\nCHECK_DEADLOCK FALSE\n")
         res = lib.run_tlc("MC_Rehash.tla", cfg, workers=8, timeout=1500)
         chk.add_tlc(f"MC_Rehash[{name}]", res)
         if res.violation:
             chk.violation(f"C13/model {name} {res.violation}", "Rehash.tla violates " + res.violation, {"tlc": res.output[-2500:]})
+    # the model must be able to see a hang: one throttle permit per PATH of a run (2) with a single permit (Factor 1 x pool 1)
+    cfg = os.path.join(lib.BUILD, "MC_Rehash_perpath.cfg")
+    with open(cfg, "w") as f:
+        f.write('CONSTANTS\n  Devices = {"d1", "d2"}\n  NRuns <- MCNRuns\n  RunSize = 2\n  Pool <- MCPool1\n  Factor = 1\n  OpenLimit = 1\n  FailSet <- MCFail\n  PermitsPerTask = 2\n'
+                "SPECIFICATION Spec\nINVARIANTS Bounded OpenBounded Confluent NoDeadlock\nPROPERTY Termination\nCHECK_DEADLOCK FALSE\n")
+    res = lib.run_tlc("MC_Rehash.tla", cfg, workers=2, timeout=600, coverage=False)
+    chk.add_tlc("MC_Rehash[one permit per path, 1 permit: must be refuted]", res)
+    if res.violation not in ("NoDeadlock", "Termination"):
+        raise lib.ToolError(f"vacuity: Rehash.tla does not refute the per-path throttle (got {res.violation})")
     lib.build_all()
     rng = random.Random(chk.seed + 13)
     n = 150 if thorough else 36
